@@ -16,6 +16,7 @@ compile=True/False, lookups interleaved or not) with depth <= 5 and hostile lite
 
 import itertools
 
+import re
 import threading
 
 import falcon.routing.compiled as _compiled_module
@@ -206,10 +207,50 @@ class FlakyConv(BaseConverter):
         return None if value.startswith('n') else self._tag + ':' + value
 
 
+_MULT_OK = re.compile(r'-?[0-9]{1,17}')
+
+
+class MultConv(BaseConverter):
+    """A converter that cannot be built without its argument."""
+
+    def __init__(self, factor):
+        self._factor = factor
+
+    def convert(self, value):
+        if _MULT_OK.fullmatch(value) and int(value) % self._factor == 0:
+            return int(value)
+        return None
+
+
+class HookRes(Res):
+    """A resource whose responder is resolved lazily: reading `on_get` (add_route does, to map the
+    methods) runs user code once when armed."""
+    hook = None
+
+    @property
+    def on_get(self):
+        h = HookRes.hook
+        if h is not None:
+            HookRes.hook = None
+            h()
+        return self._on_get
+
+    def _on_get(self, req, resp, **kw):
+        pass
+
+
 class PluginConv(BaseConverter):
     """A converter that runs user code once while the lookup that called it is still in flight
-    (lazy route registration, a nested lookup).  `hook` is armed by the check for one lookup."""
+    (lazy route registration, a nested lookup).  `hook` is armed by the check for one lookup;
+    `ctor_hook` runs once inside the constructor (template validation, compilation)."""
     hook = None
+    ctor_hook = None
+
+    def __init__(self):
+        h = PluginConv.ctor_hook
+        if h is not None:
+            PluginConv.ctor_hook = None
+            h()
 
     def convert(self, value):
         h = PluginConv.hook
@@ -309,6 +350,7 @@ def make_router(profile, late=False):
     conv['tagB'] = TaggerB
     conv['plug'] = PluginConv
     conv['flaky'] = FlakyConv
+    conv['mult'] = MultConv
     if profile == 'alt':
         conv['int'] = HexIntConv
         conv['veto'] = AltVetoConv
@@ -348,9 +390,14 @@ class World:
         self.ops.append(['neighbour', profile, bool(late)])
         self.sig = None
 
-    def add(self, rec, template, compile=False, intent=None, fault=None):
+    def add(self, rec, template, compile=False, intent=None, fault=None, nested=None):
+        """nested = [where, path]: user code that add_route itself calls ('resource': reading the
+        resource's responder attribute; 'converter': the constructor of a 'plug' converter named in the
+        template) performs find(path) on this router while the call is in progress."""
         kinds = RES_MODES[self.res_mode]
         klass = kinds[self.n_adds % len(kinds)]
+        if nested is not None and nested[0] == 'resource':
+            klass = HookRes
         # responders of the kind this router's App would require, unless that is the fault to inject
         if self.asgi != (fault == 'responder-kind'):
             klass = ASYNC_TWIN[klass]
@@ -367,9 +414,22 @@ class World:
             rec.count('add.falsy-resource')
         k = multi_misuse_index(template)
         orphan_cand = bool(k) and not self.model.has_prefix(M.split_template(template)[:k])
-        op = ['add', template, bool(compile), None, False, fault]
+        op = ['add', template, bool(compile), None, False, fault, nested]
         self.ops.append(op)
         self.sig = None
+        seen = []
+        if nested is not None:
+            def hook():
+                want_before = self.model.find(nested[1])
+                try:
+                    got = self.router.find(nested[1])
+                except Exception as ex:  # noqa
+                    got = Raised(ex)
+                seen.append((got, want_before))
+            if nested[0] == 'resource':
+                HookRes.hook = hook
+            else:
+                PluginConv.ctor_hook = hook
         try:
             self.router.add_route(template, res, **kwargs)
         except UnacceptableRouteError:
@@ -378,12 +438,25 @@ class World:
             op[3] = 'rej:' + type(ex).__name__
         else:
             op[3] = 'ok'
+        finally:
+            HookRes.hook = PluginConv.ctor_hook = None
+        self.nested_seen = seen
         if op[3] == 'ok':
             try:
                 overridden = self.model.add(template, res)
             except M.Unparseable as ex:
                 self.dead = 'model cannot interpret accepted template %r: %s' % (template, ex)
                 if rec is not None:
+                    # no oracle for the result, but an accepted template must not make lookups fail
+                    try:
+                        self.router.find('/')
+                        rec.count('mon.find-must-not-raise')
+                    except Exception as ex2:  # noqa
+                        rec.count('report.unattributed.find-raised')
+                        rec.violation('find-raised', {'ops': [list(o) for o in self.ops], 'path': '/',
+                                                      'got': 'raised ' + repr(ex2), 'want': 'any result: ' + self.dead,
+                                                      'attributed_to': None})
+                        return op[3]
                     rec.count('model.unparseable')
                     if rec.counters['model.unparseable'] == 1:
                         rec.mark_inconclusive('the real router accepted a template the reference cannot interpret '
@@ -481,7 +554,7 @@ class World:
 
     def signature(self):
         if self.sig is None:
-            self.sig = h64([o[:3] + o[5:6] for o in self.ops])
+            self.sig = h64([o[:3] + o[5:7] for o in self.ops])
         return self.sig
 
 
@@ -502,7 +575,7 @@ def rebuild(ops, skip=()):
                 w.n_adds += 1
             continue
         if op[0] == 'add':
-            w.add(None, op[1], op[2], fault=op[5] if len(op) > 5 else None)
+            w.add(None, op[1], op[2], fault=op[5] if len(op) > 5 else None, nested=op[6] if len(op) > 6 else None)
         elif op[0] == 'nested':
             w.nested_lookup(None, op[1], op[2], op[3], op[4])
         elif op[0] == 'faulty-find':
@@ -751,6 +824,7 @@ CONV_REPS = {
     ('float', 'min=1.5, finite=False'): ['inf', '-inf', '1.5', '1.4', 'nan', '-1e999'],
     ('float', 'min=0, max=100, finite=True'): ['50', 'inf', '-inf', 'nan', '101', '1e999'],
     ('float', 'finite=True'): ['1.5', 'inf', 'nan', '-inf'],
+    ('mult', '3'): ['9', '10', 'x', '-3', '0'],
     ('tagA', 'True'): ['v', 'ax', 'bx'],
     ('tagB', 'True'): ['v', 'bx', 'ax'],
     ('tagA', 'upper=True'): ['v', 'ax', 'bx'],
@@ -999,7 +1073,9 @@ SPECIALS = ['/a/{p:path}/b', '/a/b/{p:path}x', '/a/{x1}/b', '/a/b/c', '/{x0}/{x1
             # white space, including line breaks, inside the argument list of a converter (legal inside a field)
             '/i/{y1:int(min=5,\n max=10)}-{w1}', '/i/{y1:int(min=5,\r max=10)}_{w1}', '/{x0:int(min=5,\r\n max=10)}',
             '/i/{y1:float(min=0,\t max=100,\n\n finite=False)}.{w1:int( 2 )}', '/{y0:int(\n2\n)}.{w0}',
-            '/i/{y1}-{w1:dt(\n"%Y-%m-%d"\x0c)}']
+            '/i/{y1}-{w1:dt(\n"%Y-%m-%d"\x0c)}',
+            # a converter with a required constructor argument
+            '/odd/{x1:mult(3)}', '/odd/{y1:mult(3)}.{w1}']
 REFUSED_SPECIALS = [
             # multi-field segments with 2-3 converter fields and a multi-segment converter at every position
             # (expected to be refused; if one is accepted, the lookups that follow must still not fail)
@@ -1009,6 +1085,8 @@ REFUSED_SPECIALS = [
             '/f/{y1:int(min=0)}.{w1:uuid}.{p1:path}/g']
 # a field name with a trailing newline (passes an identifier test that uses '$'); inside a multi-field
 # segment such a template is refused with an error that is not UnacceptableRouteError, below new segments
+# a bare reference to a converter that cannot be built without arguments
+REFUSED_SPECIALS += ['/odd/{x1:mult}', '/odd/{y1:mult}-{w1}', '/{x0:mult}', '/odd/{y1}_{w1:mult()}']
 REFUSED_SPECIALS += ['/f/{y1\n}.json', '/f/g/{y2\n}-{w2}', '/f/x{y1\n:int}', '/{y0\n}.{w0}/g']
 # ... and as a whole-segment field (recorded finding K_IDENT_NL while the real router accepts it)
 NEWLINE_NAME_SPECIALS = ['/{x0\n}', '/f/{x1\n:int}',
@@ -1057,6 +1135,7 @@ def exhaustive(rec):
     for pair in itertools.product(T2, repeat=2):
         one(list(pair), lean2)
     rec.count('exhaustive.pairs-done')
+    rec.count('size.after-pairs', rec.counters['mon.find'])
     # partners of the specials: the whole pair vocabulary (thorough) / its depth-1 templates plus the
     # depth-2 templates over a 4-shape core (quick)
     core = set(templates_over(['a', 'x', 'ay', 'path']))
@@ -1065,9 +1144,11 @@ def exhaustive(rec):
         for t in partners:
             one([s, t], True)
             one([t, s], True)
-    for s1 in SPECIALS:
-        for s2 in SPECIALS:
-            one([s1, s2], True)
+    rec.count('size.after-special-partners', rec.counters['mon.find'])
+    for i1, s1 in enumerate(SPECIALS):
+        for i2, s2 in enumerate(SPECIALS):
+            if tier == 'thorough' or (i1 + i2) % 2 == 0:      # quick: every other ordered pair of specials
+                one([s1, s2], True)
     shallow = [t for t in T2 if t.count('/') == 1] + REFUSED_PARTNERS
     for s in REFUSED_SPECIALS:
         one([s], False)
@@ -1080,10 +1161,12 @@ def exhaustive(rec):
         for t in REFUSED_PARTNERS:
             one([t, s], True)
     rec.count('exhaustive.refused-specials-done')
+    rec.count('size.after-refused', rec.counters['mon.find'])
     T3 = templates_over(TRIPLE_SHAPES[tier])
     for triple in itertools.product(T3, repeat=3):
         one(list(triple), True)
     rec.count('exhaustive.triples-done')
+    rec.count('size.after-triples', rec.counters['mon.find'])
     if rec.shard == 0:
         rec.note('exhaustive: %d pair-vocabulary templates (all ordered pairs, and pairs with %d depth-3 specials), '
                  '%d triple-vocabulary templates (all ordered triples); every route set x every path over its '
@@ -1196,6 +1279,60 @@ def reentrant(rec):
     rec.count('reentrant.done')
 
 
+# ---------------------------------------------------------------- a lookup from user code inside add_route
+
+def judge_nested_in_add(rec, w):
+    """The lookups that user code performed while the last add_route call was in progress: each has to
+    answer like the reference walk on the tree before that call or on the tree after it."""
+    op = w.ops[-1]
+    for got, want_before in w.nested_seen:
+        rec.count('mon.nested-in-add')
+        want_after = w.model.find(op[6][1])
+        d1, d2 = diff(got, want_before), diff(got, want_after)
+        if d1 is not None and d2 is not None:
+            kind = 'find-raised' if isinstance(got, Raised) else 'lookup-inside-add_route-follows-neither-tree'
+            rec.count('report.unattributed.' + kind)
+            rec.violation(kind, {'ops': [list(o) for o in w.ops], 'got': d1[1], 'attributed_to': None,
+                                 'want': {'before': summary(want_before), 'after': summary(want_after)}})
+    if not w.nested_seen:
+        rec.count('mon.nested-in-add.user-code-not-reached')
+
+
+RA_BASES = [['/ping'], ['/late/{name}/x', '/ping'], ['/{top}', '/late/zz']]
+RA_NEW = [('/late/{name}', 'resource'), ('/late/{name:plug}', 'converter'), ('/late/{name:plug}', 'resource'),
+          ('/a0/{p:path}', 'resource'), ('/late/{name:plug}-{ext}/y', 'converter'), ('/ping', 'resource'),
+          ('/late/{other:plug}/x', 'converter')]         # the last one is refused where '/late/{name}/x' exists
+
+
+def reentrant_add(rec):
+    """add_route on a router that was compiled / not yet compiled, with and without compile=True, during
+    which user code called by add_route looks up a path; afterwards every lookup follows the new tree."""
+    idx = 0
+    for base in RA_BASES:
+        for new, where in RA_NEW:
+            paths = list(all_paths(level_reps(base + [new], lean=True)))
+            if len(paths) > 120:
+                paths = paths[::len(paths) // 120 + 1]
+            probes = [paths[i % len(paths)] for i in (1, 5, 11)] + ['/ping']
+            for cflag in (False, True):
+                for precompiled in (True, False):
+                    for probe in probes:
+                        idx += 1
+                        if idx % rec.nshards != rec.shard:
+                            continue
+                        w = World('std', 0)
+                        for t in base:
+                            w.add(rec, t)
+                        if precompiled:
+                            run_batch(rec, w, paths[:20])
+                            w.ops.append(['find', '/'])
+                        w.add(rec, new, compile=cflag, nested=[where, probe])
+                        judge_nested_in_add(rec, w)
+                        run_batch(rec, w, paths)
+                        rec.count('reentrant-add.scenarios')
+    rec.count('reentrant-add.done')
+
+
 # ---------------------------------------------------------------- faults while the finder is (re)generated
 
 FAULT_SETS = [
@@ -1301,7 +1438,9 @@ def cohabitation(rec):
     that is created and customised before it, between its adds and its first compile, or after it was
     compiled (followed by a recompile) must not matter.  Enumerated completely, sharded by index."""
     extra = ['/h/{x1}/z', '/k/{q1:hex}', '/k/{q1:late}']
-    paths = list(all_paths(level_reps(COHAB_T + extra)))
+    paths = list(all_paths(level_reps(COHAB_T + extra, lean=True)))
+    if len(paths) > 250:
+        paths = paths[::len(paths) // 250 + 1]
     idx = 0
     for prof_b in ('std', 'alt'):
         for prof_a in ('alt', 'std'):
@@ -1346,7 +1485,7 @@ UNPRINTABLE_TOKENS = ['\x00', 'a\x00', '\ud83d', '\udc00z']     # cannot be writ
 CONV_CHOICES = [None, None, None, ('int', None), ('int', '2'), ('int', 'min=5, max=10'), ('int', '2, min=10, max=50'),
                 ('float', 'min=0, max=100, finite=False'), ('float', 'max=0.0, finite=False'),
                 ('float', 'min=1.5, finite=False'), ('float', 'min=0, max=100, finite=True'), ('float', 'finite=True'),
-                ('tagA', 'True'), ('tagB', 'True'), ('tagA', 'upper=True'), ('tagB', 'upper=True'), ('tagA', None),
+                ('mult', '3'), ('tagA', 'True'), ('tagB', 'True'), ('tagA', 'upper=True'), ('tagB', 'upper=True'), ('tagA', None),
                 ('tagB', 'False'),
                 ('int', 'min=0'), ('int', 'max=0'), ('int', 'min=0, max=0'), ('int', '2, min=0'),
                 ('int', '2, min=0, max=0'), ('int', 'num_digits=2, max=0'), ('float', 'min=0'), ('float', 'max=0.0'),
@@ -1474,7 +1613,7 @@ class Gen:
         elif kind == 'whitespace':
             tail = [rng.choice(['a b', 'a\tb', '{w%d} ' % lv, ' ', 'a b', 'a\nb'])]
         elif kind == 'bad-conv-args':
-            tail = [rng.choice(['{u%d:int(0)}', '{u%d:int(foo=1)}', '{u%d:float(1,2,3,4)}', '{u%d:dt(1,2)}',
+            tail = [rng.choice(['{u%d:mult}', 'x{u%d:mult}', '{u%d:mult()}', '{u%d:int(0)}', '{u%d:int(foo=1)}', '{u%d:float(1,2,3,4)}', '{u%d:dt(1,2)}',
                                 '{u%d:int(1/0)}', '{u%d:uuid(3)}']) % lv]
         elif kind == 'path-not-last':
             if self.orphaning and rng.random() < 0.6:
@@ -1616,8 +1755,10 @@ def run(rec):
     cohabitation(rec)
     refused_calls(rec)
     reentrant(rec)
+    reentrant_add(rec)
     compile_faults(rec)
     self_match(rec)
+    rec.count('size.before-exhaustive', rec.counters['mon.find'])
     complete = exhaustive(rec)
     rec.exhaustive = bool(complete)
     if rec.shard == 0:
@@ -1638,6 +1779,9 @@ def run(rec):
     rec.floor('cohabitation.done', rec.nshards)
     rec.floor('refused-calls.done', rec.nshards)
     rec.floor('reentrant.done', rec.nshards)
+    rec.floor('reentrant-add.done', rec.nshards)
+    rec.floor('mon.nested-in-add', 200)
+    rec.floor('veto.mult', 5)
     rec.floor('fault.done', rec.nshards)
     rec.floor('fault.scenarios', 40)
     rec.floor('fault.lookup-raised', 40)
@@ -1695,8 +1839,13 @@ def replay(rec, w):
             print('another router created: profile %s%s' % (op[1], ' + late registrations' if op[2] else ''))
         elif op[0] == 'add':
             fault = op[5] if len(op) > 5 else None
-            out = world.add(rec, op[1], op[2], fault=fault)
-            print('add_route(%r, compile=%r%s) -> %s' % (op[1], op[2], ', fault=%s' % fault if fault else '', out))
+            nested = op[6] if len(op) > 6 else None
+            out = world.add(rec, op[1], op[2], fault=fault, nested=nested)
+            print('add_route(%r, compile=%r%s%s) -> %s' % (op[1], op[2], ', fault=%s' % fault if fault else '',
+                                                          ', user code inside it (%s) calls find(%r)' % tuple(nested)
+                                                          if nested else '', out))
+            if nested:
+                judge_nested_in_add(rec, world)
         elif op[0] == 'faulty-find':
             out = world.faulty_find(op[1], op[2])
             print('find(%r) with a compile-time fault (%r) -> %s' % (op[1], op[2], out))
